@@ -1210,3 +1210,21 @@ package op
 //@   requires valid(o)
 //@   modifies o.corsOpts
 //@   ensures stored: o.corsOpts == opts && result == nil
+
+// ---- C20: the remaining field-assigning provider options write exactly their own field ----
+//@ func op.WithAllowInsecure$1
+//@   requires valid(o)
+//@   modifies o.insecure
+//@   ensures stored: o.insecure && result == nil
+//@ func op.WithAccessTokenVerifierOpts$1
+//@   requires valid(o)
+//@   modifies o.accessTokenVerifierOpts
+//@   ensures stored: o.accessTokenVerifierOpts == opts && result == nil
+//@ func op.WithIDTokenHintVerifierOpts$1
+//@   requires valid(o)
+//@   modifies o.idTokenHintVerifierOpts
+//@   ensures stored: o.idTokenHintVerifierOpts == opts && result == nil
+//@ func op.WithLogger$1
+//@   requires valid(o)
+//@   modifies o.logger
+//@   ensures stored: o.logger == logger && result == nil
